@@ -10,3 +10,4 @@ pub mod defrag_explore;
 pub mod entries;
 pub mod fields;
 pub mod multi;
+pub mod genprobe;
